@@ -185,7 +185,11 @@ func (r *runner) queryInstances(st *State) []qinst {
 	orderItems := func(os []*markettypes.SellOrderInfo) []string {
 		var o []string
 		for _, x := range os {
-			o = append(o, fmt.Sprint(x.Id))
+			exp := "none"
+			if x.Expiration != nil {
+				exp = tickOf(x.Expiration)
+			}
+			o = append(o, fmt.Sprint(x.Id)+"\t"+strings.Join([]string{NameOfBech32(x.Seller), x.BatchDenom, x.AskDenom, x.AskAmount, fmt.Sprint(x.DisableAutoRetire), exp}, "|"))
 		}
 		return o
 	}
